@@ -186,6 +186,7 @@ Inductive c19case :=
 | KCalls (ms : list method) (meth : string)
 | KReturn (ms : list method) (meth : string)
 | KNames (ms : list method)
+| KAtomic (ms : list method) (meth : string)   (* all accesses of the method to a table it writes lie in one critical section *)
 | KPair (ms : list method) (f g : string) (raced in_store : bool)
 | KSched (clients : list nat) (log : list entry) (digest : cstore) (minted : list (tkind * nat * bool)) (panics : nat)
 | KStress (config site1 site2 : string)     (* a pair of call sites the race detector reported under free-running load *)
@@ -203,6 +204,7 @@ Definition check (c : c19case) : verdict :=
   | KCalls ms meth => V None (find_tag (sel_calls meth) ms)
   | KReturn ms meth => V None (find_tag (sel_return meth) ms)
   | KNames ms => V None (if names_unique ms then None else Some "duplicate-method")
+  | KAtomic ms meth => V None (split_section ms meth)
   | KPair ms f g raced in_store =>
       V (if raced && in_store then
            match may_race ms f g with
